@@ -126,7 +126,7 @@ class XsdElement(XsdComponent, ParticleMixin,
     substitutes: set[str] | tuple[()] = ()
     identities: list[XsdIdentity]
     selected_by: set[XsdIdentity]
-    xsi_types: set[BaseXsdType]
+    xsi_types: set[Any]
     alternatives: Union[tuple[()], list['XsdAlternative']] = ()
     inheritable: Union[tuple[()], dict[str, XsdAttribute]] = ()
 
@@ -669,19 +669,28 @@ class XsdElement(XsdComponent, ParticleMixin,
                 if xsd_type.is_blocked(self):
                     reason = _("usage of %r is blocked") % xsd_type
                     context.validation_error(validation, self, reason, obj)
-                elif xsd_type not in self.xsi_types:
+                else:
                     # For complex contents augments permanently the XSD elements
-                    # that collect keys/keyrefs for enabled identities.
+                    # that collect keys/keyrefs for enabled identities. This has to
+                    # be done once for each (type, identity) pair and not only once
+                    # for each type, because other identities can be enabled when
+                    # the same xsi:type is found in another position or document.
                     if xsd_type.has_complex_content():
-                        xpath_element = XPathElement(self.name, xsd_type)
+                        xpath_element = None
                         for counter in context.identities.values():
-                            if counter.enabled:
-                                try:
-                                    counter.identity.update_elements(xpath_element)
-                                except TypeError as e:
-                                    context.validation_error(validation, self, e, obj)
+                            if not counter.enabled or \
+                                    (xsd_type, counter.identity) in self.xsi_types:
+                                continue
+                            if xpath_element is None:
+                                xpath_element = XPathElement(self.name, xsd_type)
+                            try:
+                                counter.identity.update_elements(xpath_element)
+                            except TypeError as e:
+                                context.validation_error(validation, self, e, obj)
+                            self.xsi_types.add((xsd_type, counter.identity))
 
-                    self.xsi_types.add(xsd_type)
+                    if xsd_type not in self.xsi_types:
+                        self.xsi_types.add(xsd_type)
 
         if xsd_type.abstract:
             reason = _("%r is abstract") % xsd_type
